@@ -175,7 +175,7 @@ def run_check(prop, tier, master, n_runs=None, budget_s=None):
     from . import propchecks
 
     t0 = time.time()
-    budget_s = budget_s or (170 if tier == "quick" else 2400)
+    budget_s = core.budget(tier, budget_s)
     # (1) per-step Pareto oracle -----------------------------------------------------------
     n_a = n_runs or (120 if tier == "quick" else 3000)
     res_a, err_a, skipped_a = propchecks.inrun_batch("C08", f"C08-{tier}-runs", master, n_a, ["NaiveElimination"], ["C08"], opts={"fault_rates": (0.0,), "envs": ["real"], "features": {"naive_lattice": True}}, budget_s=budget_s * 0.3)
